@@ -845,3 +845,39 @@ def reach_dataset_names(a1: int, d1: int, a2: int, d2: int, a3: int, d3: int) ->
     post: _ != 0
     """
     return dataset_names_check(a1, d1, a2, d2, a3, d3)
+
+
+def check_data_check(dti, mode, wB):
+    """LogicalFile._check_data: in the high-compatibility mode signed-integer channel data is refused (RuntimeError),
+    outside the mode and for the other dtypes it is accepted."""
+    nps.reset()
+    (src, mapping, W) = make_source(0, 4, 7, dti, '<', '<', wB if wB > 0 else None)
+    w = W(src, mapping)
+    global_config.high_compat_mode = mode
+    try:
+        try:
+            file_mod.LogicalFile._check_data(w)
+        except RuntimeError:
+            ok = False
+        else:
+            ok = True
+    finally:
+        global_config.high_compat_mode = False
+    signed = DT_NAMES[dti] in ('int8', 'int16', 'int32')
+    return 0 if ok == (not (mode and signed)) else 1
+
+
+def ob_check_data(dti: int, mode: bool, wB: int) -> int:
+    """
+    pre: 0 <= dti < 8 and 0 <= wB <= 3
+    post: _ == 0
+    """
+    return check_data_check(dti, mode, wB)
+
+
+def reach_check_data(dti: int, mode: bool, wB: int) -> int:
+    """
+    pre: 0 <= dti < 8 and 0 <= wB <= 3
+    post: _ != 0
+    """
+    return check_data_check(dti, mode, wB)
